@@ -155,6 +155,9 @@ def module_devs(tkey, seed=0, spikes="all", opt8="all"):
         for i in (0, 1, 15):
             for v in ([0, 0x8000, 1], [0x8000, 0, 2], [1, 2, 255], [U32_MAX, U32_MAX, U32_MAX]):
                 devs.append({"k": "mcmap", "i": i, "v": v})
+        # all 8 words of a mapping record distinct (the 5 reserved words are stored and must come back in place)
+        for i in (0, 7, 15):
+            devs.append({"k": "mcmapx", "i": i, "v": [11, 22, 3, 44, 55, 66, 77, 88]})
     return devs
 
 
@@ -169,7 +172,7 @@ def dev_field(d):
         return (("arr", d["p"]),)
     if k == "elem":
         return (("arr", d["p"], d["i"]), ("arr", d["p"]))
-    if k == "mcmap":
+    if k in ("mcmap", "mcmapx"):
         return (("mcmap", d["i"]),)
     if k == "mmud":
         return (("mmud",), ("opt", "user_defined_controllers"))
@@ -258,6 +261,9 @@ def apply_dev(mod, d):
     elif k == "mcmap":
         mp = mod.mappings.values[d["i"]]
         mp.min, mp.max, mp.controller = d["v"]
+    elif k == "mcmapx":
+        mp = mod.mappings.values[d["i"]]
+        (mp.min, mp.max, mp.controller, mp.flags, mp.future_use2, mp.future_use3, mp.future_use4, mp.future_use5) = d["v"]
     elif k == "mmud":
         from rv.cmidmap import MidiMessageType, Slope
 
